@@ -25,6 +25,15 @@ def run(ctx):
                dict(ops=[E("sec", "c1", "w2"), E("sec", "c2", "w2")], fault="none"),
                dict(ops=[E("sec", "c2", "w1"), E("sec", "c1", "w1")], fault="none")]
         hs.append(ctl.with_cluster("directed-shared-%d" % i, beh, opt=dict(opts[i % 2])))
+    # one secret named by two (three) ingresses for different hosts goes away, turns unusable, comes back and is renewed, each in a
+    # batch of its own: every host that names it follows (every referrer is linked to the secret, not only the first one parsed)
+    k = 0
+    for (ta, tb, sec) in [("t4", "t7", "c1"), ("t7", "t4", "c1"), ("t9", "t5", "c2"), ("t5", "t9", "c2"), ("t10", "t4", "c1"), ("t4", "t10", "c1")]:
+        for walk in (["absent", "v1", "bad", "v2"], ["bad", "v2", "absent", "v1"]):
+            beh = [dict(ops=[E("sec", sec, "v1"), E("ing", 1, ta), E("ing", 2, tb)], fault="none")]
+            beh += [dict(ops=[E("sec", sec, v)], fault="none") for v in walk]
+            hs.append(ctl.with_cluster("directed-samesecret-%d" % k, beh, opt=dict(opts[k % 2])))
+            k += 1
     for h in hs:
         if h["opt"].get("defaultcrt"):
             h["steps"][0]["ops"].insert(0, U.op_sec("dflt", "crt:dflt"))
